@@ -1,12 +1,15 @@
 #!/bin/bash
-# usage: seed_regress.sh [tier] — apply every saved seeded change to /repo in turn, run the property's check, restore.
+# usage: seed_regress.sh [tier] [Cxx ...] — apply every saved seeded change (of the listed properties; default all) to /repo in
+# turn, run the property's check, restore.
 # Prints one line per seed: name, exit code, number of VIOLATION lines.  /repo must be clean before and is clean after.
 tier=${1:-quick}
+shift; only=" $* "
 cd /verif
 [ -z "$(git -C /repo status --short)" ] || { echo "/repo is not clean"; exit 9; }
 for d in seeded/*/; do
   name=$(basename $d)
   id=$(python3 -c "import json;print(json.load(open('$d/meta.json'))['property'])")
+  [ "$only" != "  " ] && [[ "$only" != *" $id "* ]] && continue
   st=$(python3 -c "import json;print(json.load(open('$d/meta.json')).get('status','active'))")
   [ "$st" = "neutralised" ] && { echo "$name: skipped (neutralised by a later fix, see meta.json)"; continue; }
   git -C /repo apply /verif/$d/patch.diff || { echo "$name: patch does not apply"; continue; }
